@@ -22,7 +22,7 @@ def sh(cmd, **kw):
 
 def main():
     src, sid, pid = sys.argv[1], sys.argv[2], sys.argv[3]
-    checks = sys.argv[4:] or [pid]
+    checks = [pid] + [c for c in sys.argv[4:] if c != pid]
     if not os.path.exists(os.path.join(WT, ".git")):
         sh(["git", "-C", "/repo", "worktree", "add", "--detach", WT, "HEAD"])
     sh(["git", "-C", WT, "checkout", "-q", "--detach", "main"])
